@@ -17,6 +17,31 @@
 struct osm_tape osm_tape;
 struct osm_state osm;
 
+/* tape[k] without a symbolic index */
+static int
+tape(const int *t, int n, int k)
+{
+	int i, v = 0;
+
+	for (i = 0; i < n; ++i) {
+		if (i == k)
+			v = t[i];
+	}
+	return v;
+}
+
+static int
+tapeb(const unsigned char *t, int n, int k)
+{
+	int i, v = 0;
+
+	for (i = 0; i < n; ++i) {
+		if (i == k)
+			v = t[i];
+	}
+	return v;
+}
+
 void
 osm_reset(void)
 {
@@ -143,48 +168,66 @@ osm_child_of(pid_t *pidp)
 	return c;
 }
 
-static struct osm_child *
+/* The tables are always indexed by a loop counter under an equality guard, never by a symbolic value: CBMC then
+   builds field-wise multiplexers instead of array-theory constraints (the latter cost minutes on this model). */
+#define FOR_SLOT(i, n, idx) for (i = 0; i < (n); ++i) if (i == (idx))
+
+static int
 newchild(pid_t *pidp)
 {
-	struct osm_child *c;
+	int i, k = osm.nchild;
 
-	__CPROVER_assert(osm.nchild < OSM_MAXCHILD, "os model: child table large enough for the harness");
-	c = &osm.child[osm.nchild];
-	memset(c, 0, sizeof *c);
-	c->pid = osm_tape.pidbase + osm.nchild;
-	c->pidp = pidp;
-	c->in_fd = c->out_fd = c->in_pipe = c->out_pipe = -1;
+	__CPROVER_assert(k < OSM_MAXCHILD, "os model: child table large enough for the harness");
+	FOR_SLOT(i, OSM_MAXCHILD, k) {
+		osm.child[i].pid = osm_tape.pidbase + i;
+		osm.child[i].pidp = pidp;
+		osm.child[i].argv = 0;
+		osm.child[i].argc = 0;
+		osm.child[i].file = 0;
+		osm.child[i].in_fd = osm.child[i].out_fd = osm.child[i].in_pipe = osm.child[i].out_pipe = -1;
+		osm.child[i].leaked = 0;
+		osm.child[i].reaped = 0;
+		osm.child[i].status = 0;
+		osm.child[i].nterm = 0;
+	}
 	++osm.nchild;
-	return c;
+	return k;
 }
 
 pid_t
 osm_pretend_child(pid_t *pidp)
 {
-	struct osm_child *c = newchild(pidp);
+	int k = newchild(pidp);
 
-	*pidp = c->pid;
-	return c->pid;
+	*pidp = osm_tape.pidbase + k;
+	return *pidp;
 }
 
 char *
 osm_pretend_tmp(char *path)
 {
+	int i;
+
 	__CPROVER_assert(osm.ntmp < OSM_MAXTMP, "os model: temporary table large enough for the harness");
-	osm.tmp[osm.ntmp] = path;
-	osm.tmp_unlinked[osm.ntmp] = 0;
+	FOR_SLOT(i, OSM_MAXTMP, osm.ntmp) {
+		osm.tmp[i] = path;
+		osm.tmp_unlinked[i] = 0;
+	}
 	++osm.ntmp;
 	return path;
 }
 
+/* pipe id behind an open descriptor, -1 if none / not open */
 static int
-fdslot(int fd)
+pipe_of(int fd)
 {
-	if (fd < OSM_FD0 || fd >= OSM_FD0 + OSM_MAXFD)
-		return -1;
-	if (osm.fd[fd - OSM_FD0].kind == OSM_FD_FREE)
-		return -1;
-	return fd - OSM_FD0;
+	int i, p = -1;
+
+	FOR_SLOT(i, OSM_MAXFD, fd - OSM_FD0) {
+		if (osm.fd[i].kind != OSM_FD_FREE)
+			p = osm.fd[i].pipe;
+	}
+	return p;
 }
 
 static int
@@ -197,9 +240,11 @@ newfd(int kind, int pipeid)
 			k = i;                          /* lowest free number, as POSIX requires */
 	}
 	__CPROVER_assert(k >= 0, "os model: descriptor table large enough for the harness");
-	osm.fd[k].kind = kind;
-	osm.fd[k].cloexec = 0;
-	osm.fd[k].pipe = pipeid;
+	FOR_SLOT(i, OSM_MAXFD, k) {
+		osm.fd[i].kind = kind;
+		osm.fd[i].cloexec = 0;
+		osm.fd[i].pipe = pipeid;
+	}
 	++osm.nopen;
 	return k + OSM_FD0;
 }
@@ -210,8 +255,7 @@ int
 osm_posix_spawnp(pid_t *pid, const char *file, const posix_spawn_file_actions_t *fa, const posix_spawnattr_t *attr,
                  char *const argv[], char *const envp[])
 {
-	struct osm_child *c;
-	int k, n, i, s;
+	int k, n, i, j, leaked = 0, inp, outp;
 
 	(void)attr; (void)envp;
 	__CPROVER_assert(file != 0 && argv != 0, "posix_spawnp: file and argv are non-null");
@@ -223,32 +267,33 @@ osm_posix_spawnp(pid_t *pid, const char *file, const posix_spawn_file_actions_t 
 
 	k = osm.nspawn++;
 	__CPROVER_assert(k < OSM_MAXCHILD, "os model: spawn tape large enough for the harness");
-	if (osm_tape.spawn_err[k] != 0) {
+	if (tape(osm_tape.spawn_err, OSM_MAXCHILD, k) != 0) {
 		failure();
 		++osm.nspawnfail;
-		return osm_tape.spawn_err[k];           /* no child; *pid is left alone (glibc, musl) */
-	}
-	c = newchild(pid);
-	c->argv = (char **)argv;
-	c->argc = n;
-	c->file = file;
-	if (fa) {
-		c->in_fd = osm.fa_in;
-		c->out_fd = osm.fa_out;
-		s = fdslot(osm.fa_in);
-		if (s >= 0)
-			c->in_pipe = osm.fd[s].pipe;
-		s = fdslot(osm.fa_out);
-		if (s >= 0)
-			c->out_pipe = osm.fd[s].pipe;
+		return tape(osm_tape.spawn_err, OSM_MAXCHILD, k);           /* no child; *pid is left alone (glibc, musl) */
 	}
 	/* descriptors that are open and not close-on-exec are inherited under their own number */
 	for (i = 0; i < OSM_MAXFD; ++i) {
 		if (osm.fd[i].kind != OSM_FD_FREE && !osm.fd[i].cloexec)
-			++c->leaked;
+			++leaked;
+	}
+	inp = fa ? pipe_of(osm.fa_in) : -1;
+	outp = fa ? pipe_of(osm.fa_out) : -1;
+	j = newchild(pid);
+	FOR_SLOT(i, OSM_MAXCHILD, j) {
+		osm.child[i].argv = (char **)argv;
+		osm.child[i].argc = n;
+		osm.child[i].file = file;
+		if (fa) {
+			osm.child[i].in_fd = osm.fa_in;
+			osm.child[i].out_fd = osm.fa_out;
+			osm.child[i].in_pipe = inp;
+			osm.child[i].out_pipe = outp;
+		}
+		osm.child[i].leaked = leaked;
 	}
 	if (pid)
-		*pid = c->pid;
+		*pid = osm_tape.pidbase + j;
 	return 0;
 }
 
@@ -259,8 +304,8 @@ osm_fa_init(posix_spawn_file_actions_t *a)
 
 	(void)a;
 	__CPROVER_assert(k < OSM_MAXCHILD, "os model: file-actions tape large enough for the harness");
-	if (osm_tape.fa_init_err[k])
-		return osm_tape.fa_init_err[k];
+	if (tape(osm_tape.fa_init_err, OSM_MAXCHILD, k))
+		return tape(osm_tape.fa_init_err, OSM_MAXCHILD, k);
 	if (osm.fa_live && !osm.fa_destroyed)
 		++osm.fa_bad;                           /* previous object never destroyed: leak */
 	osm.fa_live = 1;
@@ -290,10 +335,10 @@ osm_fa_adddup2(posix_spawn_file_actions_t *a, int fd, int newfd_)
 		++osm.fa_bad;
 		return EBADF;
 	}
-	if (newfd_ == 0 && osm_tape.fa_dup2_in_err[k])
-		return osm_tape.fa_dup2_in_err[k];
-	if (newfd_ == 1 && osm_tape.fa_dup2_out_err[k])
-		return osm_tape.fa_dup2_out_err[k];
+	if (newfd_ == 0 && tape(osm_tape.fa_dup2_in_err, OSM_MAXCHILD, k))
+		return tape(osm_tape.fa_dup2_in_err, OSM_MAXCHILD, k);
+	if (newfd_ == 1 && tape(osm_tape.fa_dup2_out_err, OSM_MAXCHILD, k))
+		return tape(osm_tape.fa_dup2_out_err, OSM_MAXCHILD, k);
 	if (newfd_ == 0)
 		osm.fa_in = fd;
 	else if (newfd_ == 1)
@@ -305,7 +350,7 @@ static pid_t
 report(struct osm_child *c, int *status, int k)
 {
 	c->reaped = 1;
-	c->status = osm_tape.wait_status[k];
+	c->status = tape(osm_tape.wait_status, OSM_MAXWAIT, k);
 	if (!osm_status_ok(c->status))
 		failure();
 	if (status)
@@ -321,18 +366,18 @@ osm_wait(int *status)
 	k = osm.nwait++;
 	__CPROVER_assert(k < OSM_MAXWAIT, "os model: wait tape large enough for the harness");
 	n = osm_nlive();
-	if (osm.unknown_left > 0 && (osm_tape.wait_unknown[k] || n == 0)) {
+	if (osm.unknown_left > 0 && (tapeb(osm_tape.wait_unknown, OSM_MAXWAIT, k) || n == 0)) {
 		/* a child that the driver did not start (inherited from the program that exec'ed it) */
 		--osm.unknown_left;
 		if (status)
-			*status = osm_tape.wait_status[k];
+			*status = tape(osm_tape.wait_status, OSM_MAXWAIT, k);
 		return osm_tape.pidbase + OSM_MAXCHILD + osm.unknown_left;
 	}
 	if (n == 0) {
 		errno = ECHILD;
 		return -1;
 	}
-	want = osm_tape.wait_pick[k] % n;
+	want = tapeb(osm_tape.wait_pick, OSM_MAXWAIT, k) % n;
 	seen = 0;
 	for (i = 0; i < OSM_MAXCHILD; ++i) {
 		if (i < osm.nchild && !osm.child[i].reaped) {
@@ -392,8 +437,8 @@ osm_pipe(int fd[2])
 	int k = osm.npipe++;
 
 	__CPROVER_assert(k < OSM_MAXCHILD, "os model: pipe tape large enough for the harness");
-	if (osm_tape.pipe_err[k]) {
-		errno = osm_tape.pipe_err[k];
+	if (tape(osm_tape.pipe_err, OSM_MAXCHILD, k)) {
+		errno = tape(osm_tape.pipe_err, OSM_MAXCHILD, k);
 		return -1;
 	}
 	fd[0] = newfd(OSM_FD_PIPE_R, k);
@@ -404,34 +449,44 @@ osm_pipe(int fd[2])
 int
 osm_fcntl3(int fd, int cmd, int arg)
 {
-	int k = osm.nfcntl++, s = fdslot(fd);
+	int k = osm.nfcntl++, i, found = 0;
 
 	__CPROVER_assert(k < 2 * OSM_MAXCHILD, "os model: fcntl tape large enough for the harness");
 	__CPROVER_assert(cmd == F_SETFD, "os model: only fcntl(F_SETFD) is modelled");
-	if (s < 0) {
+	FOR_SLOT(i, OSM_MAXFD, fd - OSM_FD0) {
+		if (osm.fd[i].kind != OSM_FD_FREE)
+			found = 1;
+	}
+	if (!found) {
 		errno = EBADF;
 		return -1;
 	}
-	if (osm_tape.fcntl_err[k]) {
-		errno = osm_tape.fcntl_err[k];
+	if (tape(osm_tape.fcntl_err, 2 * OSM_MAXCHILD, k)) {
+		errno = tape(osm_tape.fcntl_err, 2 * OSM_MAXCHILD, k);
 		return -1;
 	}
-	osm.fd[s].cloexec = (arg & FD_CLOEXEC) != 0;
+	FOR_SLOT(i, OSM_MAXFD, fd - OSM_FD0)
+		osm.fd[i].cloexec = (arg & FD_CLOEXEC) != 0;
 	return 0;
 }
 
 int
 osm_close(int fd)
 {
-	int s = fdslot(fd);
+	int i, found = 0;
 
-	if (s < 0) {
+	FOR_SLOT(i, OSM_MAXFD, fd - OSM_FD0) {
+		if (osm.fd[i].kind != OSM_FD_FREE) {
+			found = 1;
+			osm.fd[i].kind = OSM_FD_FREE;
+			osm.fd[i].pipe = -1;
+		}
+	}
+	if (!found) {
 		++osm.badclose;                         /* double close or close of a descriptor we never opened */
 		errno = EBADF;
 		return -1;
 	}
-	osm.fd[s].kind = OSM_FD_FREE;
-	osm.fd[s].pipe = -1;
 	--osm.nopen;
 	return 0;
 }
@@ -461,7 +516,9 @@ osm_unlink(const char *path)
 
 	__CPROVER_assert(path != 0, "unlink: path non-null");
 	__CPROVER_assert(osm.nunlink < OSM_MAXUNLINK, "os model: unlink log large enough for the harness");
-	osm.unlinked[osm.nunlink++] = path;
+	FOR_SLOT(i, OSM_MAXUNLINK, osm.nunlink)
+		osm.unlinked[i] = path;
+	++osm.nunlink;
 	for (i = 0; i < OSM_MAXTMP; ++i) {
 		if (i < osm.ntmp && osm.tmp[i] == path)
 			osm.tmp_unlinked[i] = 1;
